@@ -253,6 +253,36 @@ func (sc *collection) doBuild(ctx context.Context) (Provider, error) {
 		}
 	}
 
+	// Every required dependency must be registered (or built in), whatever the
+	// lifetime of the service that declares it
+	for _, descriptor := range allDescriptors {
+		if descriptor == nil {
+			continue
+		}
+
+		for _, dep := range descriptor.Dependencies {
+			if dep == nil || dep.Optional || dep.Group != "" {
+				continue
+			}
+
+			if _, isBuiltin := reservedTypes[dep.Type]; isBuiltin && dep.Key == nil {
+				continue
+			}
+
+			if _, ok := sc.services[TypeKey{Type: dep.Type, Key: dep.Key}]; !ok {
+				return nil, &BuildError{
+					Phase:   "validation",
+					Details: fmt.Sprintf("dependency of %v is not registered", formatType(descriptor.Type)),
+					Cause: &ResolutionError{
+						ServiceType: dep.Type,
+						ServiceKey:  dep.Key,
+						Cause:       ErrServiceNotFound,
+					},
+				}
+			}
+		}
+	}
+
 	// Phase 4: Create provider with fast ID generation
 	// Count void-return scoped descriptors for pre-allocation
 	voidCount := 0
